@@ -289,6 +289,14 @@ def _run_cli(src, config, keep, via, case, td, cli):
             fh.write(src)
         outp = os.path.join(td, 'o.p8')
         argv, what = ['build', outp, '--lua', lp, '--lua-minify'] + cli, '`p8tool build --lua-minify` (keep file is a pipe)'
+    elif via == 'luamin_two':
+        p1, path = os.path.join(td, 'first.p8'), os.path.join(td, 'second.p8')
+        with open(p1, 'wb') as fh:
+            fh.write(reffmt.write_p8(8, b'warm_up_a=1 warm_up_b=warm_up_a\n', bytes(0x4300)))
+        with open(path, 'wb') as fh:
+            fh.write(reffmt.write_p8(8, src, bytes(0x4300)))
+        outp = os.path.join(td, 'second_fmt.p8')
+        argv, what = ['luamin'] + cli + [p1, path], '`p8tool luamin` (second of two carts, keep file is a pipe)'
     else:
         path = os.path.join(td, 'c.p8')
         with open(path, 'wb') as fh:
@@ -420,6 +428,11 @@ def part_populations(ctx):
         case = {'source': src, 'config': config, 'keep': keep_body, 'via': via}
         if config == 'keep_file' and via in ('luamin', 'build') and seed[-1] % 2 == 0:
             case['keep_is_pipe'] = True
+        if config == 'keep_file' and via == 'luamin_two' and seed[-1] % 2 == 0:
+            if 'keep_pipe_several_carts' in ctx.open_findings:
+                ctx.stats.exclude('keep file is a pipe, several carts in one call (known finding, left out)')
+            else:
+                case['keep_is_pipe'] = True
         if not fully_parsed(src):
             ctx.stats.exclude('not_parsed_to_the_end_by_this_tree')
             return
